@@ -310,9 +310,13 @@ class MCNP_Problem:
                         last_obj._delete_trailing_comment()
                     trailing_comment = obj.trailing_comment
                     last_obj = obj
-        except UnsupportedFeature as e:
+        # errors of the reader itself (vertical format, a malformed read input,
+        # a read input that names a missing file): nothing more can be read
+        except (UnsupportedFeature, MalformedInputError, FileNotFoundError) as e:
             if check_input:
-                warnings.warn(f"{type(e).__name__}: {e.message}", stacklevel=2)
+                warnings.warn(
+                    f"{type(e).__name__}: {getattr(e, 'message', e)}", stacklevel=2
+                )
             else:
                 raise e
         self.__update_internal_pointers(check_input)
